@@ -18,9 +18,9 @@ type c16Case struct {
 	IO    *c16IO   `json:"io,omitempty"` // an I/O fault case (the other fields are unused then)
 	Proj  *project `json:"proj"`
 	Fault string   `json:"fault"`
-	Pos   string   `json:"pos"`   // top | block | include | n/a
-	Cmd   string   `json:"cmd"`   // generate | generate-stdin | update | compare | format | format-check | update-all | compare-all | compare-all-github | format-all | copyright
-	Which string   `json:"which"` // for --all: first | middle | last target in walk order
+	Pos   string   `json:"pos"`           // top | block | include | n/a
+	Cmd   string   `json:"cmd"`           // generate | generate-stdin | update | compare | format | format-check | update-all | compare-all | compare-all-github | format-all | copyright
+	Which string   `json:"which"`         // for --all: first | middle | last target in walk order
 	Arg   string   `json:"arg,omitempty"` // invalid-version: the version given with -v
 }
 
